@@ -21,6 +21,22 @@ let hop_of_token t =
   if t = "dec" then HDec else if t = "inc" then HInc else if t = "clr" then HClear else if t = "get" then HGet
   else if t.[0] = 'a' then HAdd (n ()) else if t.[0] = 's' then HSet (n ()) else failwith ("drv_C14: op " ^ t)
 
+(* operation tokens of an EstimatesExtraction sequence: m<k> setMethod(k-th ExtractionMethod), w<k> setMobileAverageWindowSize(k)
+   (any k <= 0 is the refused call), clr, x:pr:n:wn (two-argument extract), X:pr:n:wn:pw:ln:tr:tc (five-argument extract) *)
+let xop_of_token t =
+  let ints s = List.map int_of_string (List.tl (String.split_on_char ':' s)) in
+  let num () = int_of_string (String.sub t 1 (String.length t - 1)) in
+  if t = "clr" then XClear
+  else if t.[0] = 'm' then (let k = num () in XMethod (nat_of_int (k / 4), nat_of_int (k mod 4)))
+  else if t.[0] = 'w' then XWindow (nat_of_int (max 0 (num ())))
+  else if t.[0] = 'x' then (match List.map nat_of_int (ints t) with
+                            | [ pr; n; wn ] -> XExtract (false, pr, n, wn, nat_of_int 0, nat_of_int 0, nat_of_int 0, nat_of_int 0)
+                            | _ -> failwith ("drv_C14: op " ^ t))
+  else if t.[0] = 'X' then (match List.map nat_of_int (ints t) with
+                            | [ pr; n; wn; pw; ln; tr; tc ] -> XExtract (true, pr, n, wn, pw, ln, tr, tc)
+                            | _ -> failwith ("drv_C14: op " ^ t))
+  else failwith ("drv_C14: op " ^ t)
+
 let program_and_obs (c : Caseio.case) : prog * nat list =
   let n = mn c in
   match c.kind with
@@ -77,6 +93,10 @@ let program_and_obs (c : Caseio.case) : prog * nat list =
       (case_extract (n "w") (n "calls") (n "stat") (n "avg") (n "el") (n "ec") (n "pr") (n "n") (n "wn") (n "pw") (n "ln")
          (n "tr") (n "tc"),
        obs_extract (n "calls") (n "stat") (n "avg") (n "el") (n "ec") (n "pr"))
+  | "extseq" ->
+      let ops = List.map xop_of_token (words c "ops") in
+      (case_extseq (n "el") (n "ec") ops, obs_extseq (n "el") (n "ec") ops)
+  | "objseq" -> ([], [])       (* call sequences on one object of the steps: observed under the assertion / sanitizer builds only *)
   | "lifetime" -> ([], [])     (* lifetime errors are outside the shape calculus: the model has no program *)
   | k -> failwith ("drv_C14: unknown kind " ^ k)
 
@@ -111,5 +131,8 @@ let () =
        | _ -> ());
       Caseio.out_int "items" (List.length p);
       Caseio.out_word "obs" (match run p with Safe -> List.map (fun k -> string_of_int (int_of_nat k)) o | _ -> []);
+      if c.kind = "extseq" then
+        Caseio.out_word "win" (List.map (fun k -> string_of_int (int_of_nat k))
+                                 (win_extseq (mn c "el") (mn c "ec") (List.map xop_of_token (words c "ops"))));
       Caseio.out_end ())
     cases
